@@ -57,7 +57,7 @@ PROBES = ["waiter_parked_on_thread_lock_during_swap", "two_first_starts_racing",
           "first_start_with_queries_disabled", "no_active_terminal",
           "process_lock_creation_failed", "synchronized_call_raised", "screen_write_step",
           "screen_input_poll_step", "process_start_wrapped_by_someone_else_before_import",
-          "write_cut_short",
+          "write_cut_short", "terminal_without_echo_at_entry",
           "process_start_failed_after_hand_over"]
 COMPONENTS = {
     "real": ["term_image.utils.lock_tty / query_terminal / read_tty / write_tty / get_cell_size",
@@ -227,6 +227,12 @@ def run(ch, ctx, fault=None):
     cur_late = [False]
     decrqm_re = re.compile(rb"\x1b\[\?(\d+);0\$y")
 
+    if mode == "late" and ch.bool("echo_off_at_entry", 0.5):
+        # the application already runs the terminal without echo (a TUI): a query still has to
+        # discard whatever stale input is waiting before it sends its request
+        import termios as real_termios
+        tty.attrs[3] &= ~(real_termios.ECHO | real_termios.ICANON)
+        ctx.probe("terminal_without_echo_at_entry")
     # some other package wrapped Process.start (functools.wraps) before the library was
     # imported - in every process of the tree: the library's hooks go on top all the same
     prewrapped = mode in ("getters", "late") and ch.bool("process_start_prewrapped", 0.15)
